@@ -138,11 +138,11 @@ fn start_peer(rt: &tokio::runtime::Runtime) -> Peer {
 
 /// the unit id used for a request: varies with the case so that a C ABI that dropped or altered it would
 /// obtain other values from the peer than the Rust API client
-fn unit_of(start: u16, n: u16) -> u8 {
+pub(super) fn unit_of(start: u16, n: u16) -> u8 {
     ((start as u32 + 7 * n as u32) % 247 + 1) as u8
 }
 
-fn wait_until(deadline: Duration, mut f: impl FnMut() -> bool) -> bool {
+pub(super) fn wait_until(deadline: Duration, mut f: impl FnMut() -> bool) -> bool {
     let t0 = Instant::now();
     while t0.elapsed() < deadline {
         if f() {
@@ -155,9 +155,9 @@ fn wait_until(deadline: Duration, mut f: impl FnMut() -> bool) -> bool {
 
 // ------------------------------------------------------------------------------------------------ C ABI side
 #[derive(Default)]
-struct Slot {
-    events: Vec<String>,
-    destroyed: u32,
+pub(super) struct Slot {
+    pub(super) events: Vec<String>,
+    pub(super) destroyed: u32,
 }
 
 extern "C" fn bits_complete(it: *mut rodbus_ffi::BitValueIterator, ctx: *mut c_void) {
@@ -198,20 +198,20 @@ extern "C" fn on_destroy(ctx: *mut c_void) {
 }
 
 #[derive(Default)]
-struct States {
-    seq: Vec<String>,
+pub(super) struct States {
+    pub(super) seq: Vec<String>,
 }
 extern "C" fn on_state(state: c_int, ctx: *mut c_void) {
     let name = std::panic::catch_unwind(|| format!("{:?}", ffi::ClientState::from(state))).unwrap_or_else(|_| format!("#{state}"));
     unsafe { ctx_ref::<States>(ctx) }.lock().unwrap().seq.push(name);
 }
 
-struct FfiChan {
-    ch: *mut rodbus_ffi::ClientChannel,
-    states: &'static Mutex<States>,
+pub(super) struct FfiChan {
+    pub(super) ch: *mut rodbus_ffi::ClientChannel,
+    pub(super) states: &'static Mutex<States>,
 }
 
-fn ffi_channel(ffi_rt: &FfiRuntime, port: u16, queue: u16) -> FfiChan {
+pub(super) fn ffi_channel(ffi_rt: &FfiRuntime, port: u16, queue: u16) -> FfiChan {
     let (states, sctx) = leak_ctx(States::default());
     let host = cstr("127.0.0.1");
     let mut ch: *mut rodbus_ffi::ClientChannel = std::ptr::null_mut();
@@ -240,12 +240,12 @@ fn ffi_channel(ffi_rt: &FfiRuntime, port: u16, queue: u16) -> FfiChan {
     FfiChan { ch, states }
 }
 
-fn ffi_connected(c: &FfiChan) -> bool {
+pub(super) fn ffi_connected(c: &FfiChan) -> bool {
     wait_until(Duration::from_secs(10), || c.states.lock().unwrap().seq.iter().any(|s| s == "Connected"))
 }
 
 /// issue one request; returns (return code name, slot)
-unsafe fn ffi_request(ch: *mut rodbus_ffi::ClientChannel, op: &str, start: u16, n: u16, timeout_ms: u64, null_items: bool) -> (String, &'static Mutex<Slot>) {
+pub(super) unsafe fn ffi_request(ch: *mut rodbus_ffi::ClientChannel, op: &str, start: u16, n: u16, timeout_ms: u64, null_items: bool) -> (String, &'static Mutex<Slot>) {
     let (slot, ctx) = leak_ctx(Slot::default());
     let param = ffi::RequestParam {
         unit_id: unit_of(start, n),
@@ -337,7 +337,7 @@ unsafe fn ffi_request(ch: *mut rodbus_ffi::ClientChannel, op: &str, start: u16, 
     (param_error_name(rc), slot)
 }
 
-fn slot_events(slot: &Mutex<Slot>, wait: Duration) -> String {
+pub(super) fn slot_events(slot: &Mutex<Slot>, wait: Duration) -> String {
     wait_until(wait, || !slot.lock().unwrap().events.is_empty());
     std::thread::sleep(Duration::from_millis(40)); // a second invocation would show up now
     let s = slot.lock().unwrap();
@@ -349,7 +349,7 @@ fn slot_events(slot: &Mutex<Slot>, wait: Duration) -> String {
 }
 
 // ------------------------------------------------------------------------------------------------ Rust API side
-fn err_name(e: &RequestError) -> String {
+pub(super) fn err_name(e: &RequestError) -> String {
     match e {
         RequestError::Io(_) => "Io".into(),
         RequestError::Exception(x) => format!("Exception({x:?})"),
@@ -373,7 +373,7 @@ impl Listener<ClientState> for RustStates {
     }
 }
 
-fn rust_channel(rt: &tokio::runtime::Runtime, port: u16, queue: usize) -> (Channel, Arc<Mutex<Vec<String>>>) {
+pub(super) fn rust_channel(rt: &tokio::runtime::Runtime, port: u16, queue: usize) -> (Channel, Arc<Mutex<Vec<String>>>) {
     let states = Arc::new(Mutex::new(Vec::new()));
     let _g = rt.enter();
     let ch = spawn_tcp_client_task(
